@@ -40,6 +40,8 @@ def outer_from_inner(name):
         return "failed"
     if name == "pending_warn":
         return "passed"
+    if c == "untested":
+        return "untested"
     return name
 
 
